@@ -7,24 +7,25 @@ import (
 	"net"
 	"os"
 	"path/filepath"
+	"strings"
 
 	"gitlab.com/aquachain/aquachain/aqua"
 	"gitlab.com/aquachain/aquachain/aqua/accounts"
 	"gitlab.com/aquachain/aquachain/aqua/accounts/keystore"
 	"gitlab.com/aquachain/aquachain/common"
 	"gitlab.com/aquachain/aquachain/common/hexutil"
-	"gitlab.com/aquachain/aquachain/core/types"
-	"gitlab.com/aquachain/aquachain/rlp"
 	"gitlab.com/aquachain/aquachain/consensus/aquahash"
 	"gitlab.com/aquachain/aquachain/core"
+	"gitlab.com/aquachain/aquachain/core/types"
 	"gitlab.com/aquachain/aquachain/node"
 	"gitlab.com/aquachain/aquachain/p2p"
 	"gitlab.com/aquachain/aquachain/params"
+	"gitlab.com/aquachain/aquachain/rlp"
 	rpcclient "gitlab.com/aquachain/aquachain/rpc/rpcclient"
 )
 
 const (
-	fillTo     = "0x00000000000000000000000000000000000000aa"
+	fillTo       = "0x00000000000000000000000000000000000000aa"
 	passLocked   = "pw-locked-account"
 	passUnlocked = "pw-unlocked-account"
 )
@@ -34,14 +35,16 @@ var allModules = []string{"personal", "admin", "debug", "miner", "txpool", "aqua
 var chaincfg *params.ChainConfig
 
 type testNode struct {
-	stack    *node.Node
-	ks       *keystore.KeyStore
-	locked   accounts.Account
-	unlocked accounts.Account
-	unknown  common.Address
-	clients  map[string]*rpcclient.Client
-	cancel   context.CancelFunc
-	chainID  uint64
+	httpPort, wsPort int
+	ctx              context.Context
+	stack            *node.Node
+	ks               *keystore.KeyStore
+	locked           accounts.Account
+	unlocked         accounts.Account
+	unknown          common.Address
+	clients          map[string]*rpcclient.Client
+	cancel           context.CancelFunc
+	chainID          uint64
 }
 
 func freePort() int {
@@ -91,7 +94,7 @@ func startNode(dir string) (*testNode, error) {
 		cancel()
 		return nil, fmt.Errorf("node.New: %w", err)
 	}
-	tn := &testNode{stack: stack, cancel: cancel, clients: map[string]*rpcclient.Client{}, chainID: chainID}
+	tn := &testNode{httpPort: httpPort, wsPort: wsPort, ctx: ctx, stack: stack, cancel: cancel, clients: map[string]*rpcclient.Client{}, chainID: chainID}
 	backs := stack.AccountManager().Backends(keystore.KeyStoreType)
 	if len(backs) == 0 {
 		cancel()
@@ -203,4 +206,49 @@ func (tn *testNode) stop() {
 	}
 	tn.stack.Stop()
 	tn.cancel()
+}
+
+// reopen stops and restarts one endpoint through the admin API (as an operator
+// or any IPC client can) and re-dials it. Returns false if the node refuses.
+func (tn *testNode) reopen(c interface{ Note(string, ...interface{}) }, tr string) bool {
+	in := tn.clients["inproc"]
+	var ok bool
+	host, mods, star := "127.0.0.1", strings.Join(allModules, ","), "*"
+	switch tr {
+	case "ws":
+		if err := in.Call(&ok, "admin_stopWS"); err != nil {
+			c.Note("admin_stopWS: %v", err)
+			return false
+		}
+		if err := in.Call(&ok, "admin_startWS", host, tn.wsPort, star, []net.IPNet{{IP: net.IPv4(127, 0, 0, 0).To4(), Mask: net.CIDRMask(8, 32)}}, mods); err != nil {
+			c.Note("admin_startWS: %v", err)
+			return false
+		}
+	case "http":
+		os.Setenv("AQUA_ALLOW_RPC", "true") // operator permission for admin_startRPC; not an UNSAFE_* signing opt-in
+		if err := in.Call(&ok, "admin_stopRPC"); err != nil {
+			c.Note("admin_stopRPC: %v", err)
+			return false
+		}
+		if err := in.Call(&ok, "admin_startRPC", host, tn.httpPort, star, mods, star); err != nil {
+			c.Note("admin_startRPC: %v", err)
+			return false
+		}
+	default:
+		return false
+	}
+	url := fmt.Sprintf("ws://127.0.0.1:%d", tn.wsPort)
+	if tr == "http" {
+		url = fmt.Sprintf("http://127.0.0.1:%d", tn.httpPort)
+	}
+	if old := tn.clients[tr]; old != nil {
+		old.Close()
+	}
+	cl, err := rpcclient.DialContext(tn.ctx, url)
+	if err != nil {
+		c.Note("re-dial %s: %v", tr, err)
+		return false
+	}
+	tn.clients[tr] = cl
+	return true
 }
